@@ -1301,13 +1301,18 @@ fn main() {
     let only: Vec<String> = args[2..].to_vec();
     let mut rng = Rng::new(seed_from_env());
     let thorough = tier_is_thorough();
-    let default_langs = ["lst", "arith", "jsonish", "stmt", "fx_readme_grammar", "fx_aliased_rules", "fx_inline_rules", "fx_extra_non_terminals", "fx_immediate_tokens", "fx_aliased_inlined_rules", "pairs", "zsup", "twofld", "zzfld"];
+    let default_langs = ["lst", "arith", "jsonish", "stmt", "fx_readme_grammar", "fx_aliased_rules", "fx_inline_rules", "fx_extra_non_terminals", "fx_immediate_tokens", "fx_aliased_inlined_rules", "pairs", "zsup", "twofld", "zzfld", "zzdeep"];
     let langs: Vec<String> = if !only.is_empty() {
         only
     } else if thorough {
         // a fixed list (the zoo grows while other properties are built; a check must not change with it)
         let allow: &[&str] = &["arith","fx_aliased_inlined_rules","fx_aliased_rules","fx_aliased_token_rules","fx_aliased_unit_reductions","fx_anonymous_error","fx_associativity_left","fx_associativity_right","fx_depends_on_column","fx_dynamic_precedence","fx_epsilon_external_tokens","fx_external_and_internal_tokens","fx_external_tokens","fx_external_unicode_column_alignment","fx_extra_non_terminals","fx_extra_non_terminals_with_shared_rules","fx_immediate_tokens","fx_inline_rules","fx_inlined_aliased_rules","fx_lexical_conflicts_due_to_state_merging","fx_named_rule_aliased_as_anonymous","fx_nested_inlined_rules","fx_next_sibling_from_zwt","fx_precedence_on_subsequence","fx_readme_grammar","fx_reserved_words","fx_unicode_classes","jsonish","lst","stmt","pairs","zsup","twofld","zzfld"];
-        zoo::list().into_iter().filter(|l| allow.contains(&l.as_str())).collect()
+        // + the PRIVATE grammar zoo/zzdeep (deep hidden-rule nesting; not in zoo::list())
+        let mut v: Vec<String> = zoo::list().into_iter().filter(|l| allow.contains(&l.as_str())).collect();
+        if zoo::zoo_dir("zzdeep").join("grammar.json").exists() {
+            v.push("zzdeep".to_string());
+        }
+        v
     } else {
         default_langs.iter().map(|s| s.to_string()).filter(|s| zoo::zoo_dir(s).join("grammar.json").exists()).collect()
     };
